@@ -168,7 +168,7 @@ Definition has_fallback (e : entry) : bool :=
 Definition is_allow (e : entry) : bool :=
   match e with EAllowAccept | EAllowReject => true | _ => false end.
 
-(* is the admitted call recorded as a success? *)
+(* is the call that was let through recorded as a success? *)
 Definition counts_as_success (e : entry) (o : outcome) : bool :=
   match e with
   | EAllowAccept => true
@@ -177,7 +177,7 @@ Definition counts_as_success (e : entry) (o : outcome) : bool :=
   | EDoAcc | EDoFbAcc => match o with OOk | OErrA => true | _ => false end   (* caller's predicate *)
   end.
 
-(* what an admitted call returns / raises *)
+(* what a call that was let through returns / raises *)
 Definition result_of (e : entry) (o : outcome) : result :=
   if is_allow e then RNil
   else match o with OOk => RNil | OErrU => RErrU | OErrA => RErrA | OPanic => RPanic end.
@@ -241,7 +241,7 @@ Inductive tstate :=
 
 Inductive event :=
 | EvRead (tid : nat) (t : Z) (r : wres)
-| EvDecide (tid : nat) (t : Z) (v : verdict)
+| EvDecide (tid : nat) (t : Z) (r : wres) (v : verdict)   (* decided v on the summary r it had read *)
 | EvMark (tid : nat) (t : Z) (x : Z).
 
 Record iworld := mkIW
@@ -251,6 +251,19 @@ Definition init_iworld (cfg : config) (base : Z) (n : nat) : iworld :=
   mkIW (init cfg base) base (repeat TInit n) [].
 
 Definition dummy_call : call := mkCall EDo CDone OOk 0 0 0.
+Definition ctx_obs : obs := mkObs RCtxDone 0 0 None.
+
+(* what a call hands to stat.Add, and what it returns, given the verdict of accept() *)
+Definition mark_value (c : call) (v : verdict) : Z :=
+  if rejected v then v_drop
+  else if counts_as_success (k_entry c) (k_out c) then v_success else v_fail.
+
+Definition call_obs (c : call) (v : verdict) : obs :=
+  if rejected v then
+    mkObs (if has_fallback (k_entry c) then RFallback else RUnavailable) 0
+          (if has_fallback (k_entry c) then 1 else 0) (Some v)
+  else
+    mkObs (result_of (k_entry c) (k_out c)) (if is_allow (k_entry c) then 0 else 1) 0 (Some v).
 
 Definition istep (cfg : config) (calls : list call) (w : iworld) (a : nat * Z) : iworld :=
   let '(tid, dt) := a in
@@ -258,30 +271,21 @@ Definition istep (cfg : config) (calls : list call) (w : iworld) (a : nat * Z) :
   let c := nth tid calls dummy_call in
   let upd ts := set_nth tid ts (i_threads w) in
   if (length calls <=? tid)%nat then mkIW (i_st w) now (i_threads w) (i_log w) else
-  match nth tid (i_threads w) (TDone None (mkObs RCtxDone 0 0 None)) with
+  match nth tid (i_threads w) (TDone None ctx_obs) with
   | TInit =>
     match k_ctx c with
-    | CDone => mkIW (i_st w) now (upd (TDone None (mkObs RCtxDone 0 0 None))) (i_log w)
+    | CDone => mkIW (i_st w) now (upd (TDone None ctx_obs)) (i_log w)
     | _ => let r := history (swin (i_st w)) now in
            mkIW (i_st w) now (upd (TRead r)) (i_log w ++ [EvRead tid now r])
     end
   | TRead r =>
     let v := decide cfg r (slast (i_st w)) now (k_u c) in
     mkIW (mkSt (swin (i_st w)) (last_after v (slast (i_st w)) now)) now
-         (upd (TDecided r v)) (i_log w ++ [EvDecide tid now v])
+         (upd (TDecided r v)) (i_log w ++ [EvDecide tid now r v])
   | TDecided r v =>
-    if rejected v then
-      mkIW (mark (i_st w) now v_drop) now
-           (upd (TDone (Some r)
-                   (mkObs (if has_fallback (k_entry c) then RFallback else RUnavailable) 0
-                          (if has_fallback (k_entry c) then 1 else 0) (Some v))))
-           (i_log w ++ [EvMark tid now v_drop])
-    else
-      let x := if counts_as_success (k_entry c) (k_out c) then v_success else v_fail in
-      mkIW (mark (i_st w) now x) now
-           (upd (TDone (Some r)
-                   (mkObs (result_of (k_entry c) (k_out c)) (if is_allow (k_entry c) then 0 else 1) 0 (Some v))))
-           (i_log w ++ [EvMark tid now x])
+    mkIW (mark (i_st w) now (mark_value c v)) now
+         (upd (TDone (Some r) (call_obs c v)))
+         (i_log w ++ [EvMark tid now (mark_value c v)])
   | TDone _ _ => mkIW (i_st w) now (i_threads w) (i_log w)
   end.
 
